@@ -264,6 +264,42 @@ def force_inverse_composition(rng, d: Definition):
     return d
 
 
+def many_temporaries_definition(rng, n=12, transcend=False):
+    """a model large enough that common-subexpression elimination introduces MORE THAN TEN temporaries in one block (names _t10, _t11,
+    ... sort before _t2 as strings): every state shares a distinct sub-term with its neighbour, used in several places"""
+    names = sorted(fresh_names(rng, n + 1))
+    state = [Symbol(x) for x in names[:n]]
+    u = Symbol(names[n])
+    dt = Symbol("dt")
+    model = {}
+    for i, s in enumerate(state):
+        a, b = state[i], state[(i + 1) % n]
+        t = a + Rational(i + 2, 3) * b              # distinct shared term per state
+        w = 1 + t ** 2
+        model[s] = s + dt * t / w + Rational(1, 8) * t * (u if i % 4 == 0 else 1) + (sympy.sin(t) * dt if transcend and i % 3 == 0 else 0)
+    sensors = {"wide9": {"ra": state[0] + state[1] * state[2], "rb": (state[3] + 2 * state[4]) / (1 + (state[3] + 2 * state[4]) ** 2)}}
+    rng.shuffle(state)
+    return Definition(dt, state, [u], [], {k: sympy.sympify(v) for k, v in model.items()}, sensors, transcend)
+
+
+def force_sign_sensitive(rng, d: Definition):
+    """make sure a definition contains terms whose value depends on the SIGN of a sub-expression that can be negative: t*sqrt(t^2)
+    with a shared t, and atan2 with a strictly negative second argument (rewriting them as if everything were positive - sqrt(t^2) -> t,
+    atan2(y, x) -> atan(y/x) - is wrong on half of the inputs)"""
+    s1, s2 = rng.choice(d.state), rng.choice(d.state)
+    t = s1 - 2 * s2 + Rational(1, 3)
+    tgt = rng.choice(d.state)
+    d.state_model[tgt] = d.state_model[tgt] + t * sympy.sqrt(t ** 2) * d.dt
+    for rd in d.sensors.values():
+        r = rng.choice(sorted(rd))
+        rd[r] = rd[r] + sympy.atan2(rng.choice(d.state), -(1 + rng.choice(d.state) ** 2))
+        r2 = rng.choice(sorted(rd))
+        rd[r2] = rd[r2] + t * sympy.sqrt(t ** 2)
+        break
+    d.transcend = True
+    return d
+
+
 def unsort_readings(d: Definition):
     """declare the readings of every sensor (and the sensors) in reverse-sorted order, so that dict insertion order differs
     from name order wherever there are two or more"""
